@@ -10,6 +10,9 @@
 // c15_widen_test.go holds the multi-step phases: known transactions re-delivered in TransactionList messages, transactions
 // re-using the payload hash of a private transaction, the node's own CreateTransaction over participant key situations,
 // and payload queries while the node's own DID document is deactivated/unresolvable.
+//
+// c15_stream_test.go: stream set-up on a node behind a TLS terminator (real connection manager, offloading interceptor,
+// tlsAuthenticator and v2 stream over a loopback socket); the identity of the connection and the answer to a payload query.
 package c15
 
 import (
@@ -983,8 +986,9 @@ func TestCheck(t *testing.T) {
 	if r.Get("alias_admitted") == 0 {
 		r.Fatalf("no transaction re-using the payload hash of a private transaction was admitted: the same-payload-hash strategy was not exercised")
 	}
-	if r.Get("stream_setup_identity/authenticated-as-V") == 0 || r.Get("stream_setup_identity/no-connection") == 0 {
-		r.Fatalf("stream set-up: %d streams authenticated as the listed participant, %d refused: the terminator cases were not exercised", r.Get("stream_setup_identity/authenticated-as-V"), r.Get("stream_setup_identity/no-connection"))
+	if r.Get("stream_setup/inconclusive") == 0 && (r.Get("stream_setup_positive_control") == 0 || r.Get("stream_setup_identity/no-connection") == 0) {
+		r.Fatalf("stream set-up: %d streams of the listed participant with its own certificate were authenticated and served, %d streams refused: the terminator cases were not exercised",
+			r.Get("stream_setup_positive_control"), r.Get("stream_setup_identity/no-connection"))
 	}
 	if r.Get("create/created") == 0 || r.Get("create/refused") == 0 {
 		r.Fatalf("CreateTransaction: %d created, %d refused: the participant situations were not exercised", r.Get("create/created"), r.Get("create/refused"))
